@@ -243,7 +243,7 @@ PROPS = {
              "blanks, exactly the canonical text of the returned Line). Trusted: Lean kernel, harness, the independent reference lexer.",
         assumptions=["64-bit usize/isize"]),
     "C03": dict(
-        module="Flussab.Props.C03Cnf", modules=["Flussab.Props.C03Aiger", "Flussab.Props.C03Cnf", "Flussab.Props.C03Btor2"],
+        module="Flussab.Props.C03Cnf", modules=["Flussab.Props.C03Aiger", "Flussab.Props.C03AigerConverse", "Flussab.Props.C03Cnf", "Flussab.Props.C03Btor2"],
         engines=[("aiger", 3000, 120000, "rt+layout"), ("cnf", 3000, 120000, "rt+layout"), ("btor2", 3000, 120000, "rt+rtbad+layout+kinds+valid"), ("btor2", 0, 0, "validx")], release=True,
         claim="Theorems over the parser and writer models: cnf_roundtrip (CNF/WCNF/GCNF, every literal type, both "
               "ignore_header settings: parse(write(h, cs)) = (h, cs, clean end) for every value in the explicit "
@@ -257,12 +257,16 @@ PROPS = {
              "OrdDomain = DESIGN's WFaig / WFord plus bits <= 64 and file shorter than usize::MAX; the binary writer's "
              "assert! and index never fire), with aig_varint_roundtrip (lengths 1-10), header field trimming (5-9 "
              "fields), latch reset forms, symbols, UTF-8 names and comments as sub-lemmas. The AIGER converse "
-             "(parse o write o parse = parse) is checked by the engine only. Texts shorter than 2^64-1 bytes, "
+             "(Props/C03AigerConverse.lean): aag/aig_parsed_is_domain (whatever parse() accepts, for 1 <= bits <= 64 "
+             "and input shorter than usize::MAX - 1, lies in the writer's domain), aag/aig_parse_write_parse "
+             "(parse o write o parse = parse, whole output consumed), aag/aig_write_length (the writer emits at "
+             "most one byte more than the parser consumed; tight), and refutations of the unrestricted statements "
+             "(bits = 0; a 2^64-byte comment exists in the model only). Texts shorter than 2^64-1 bytes, "
              "non-failing source. Trusted: Lean kernel, harness, tools/gen_tables.py.",
         trusted=["tools/gen_tables.py (keyword / name tables translator)"],
         assumptions=["document shorter than 2^64 - 1 bytes"]),
     "C04": dict(
-        module="Flussab.Props.C04", modules=["Flussab.Props.C04", "Flussab.Props.C04Prefix", "Flussab.Props.C04Btor2", "Flussab.Props.C04Aiger"],
+        module="Flussab.Props.C04", modules=["Flussab.Props.C04", "Flussab.Props.C04Prefix", "Flussab.Props.C04Btor2", "Flussab.Props.C04Aiger", "Flussab.Props.C04AigerPrefix"],
         engines=[("aiger", 2000, 60000, "fault"), ("aiger", 2, 300, "sweep"), ("cnf", 3000, 100000, "fault+logfault"), ("cnf", 25, 1500, "sweep"), ("btor2", 2000, 60000, "fault"), ("btor2", 15, 600, "sweep")], release=True,
         claim="Theorems for every byte string and every fault offset (the view delivers b then fails): "
               "cnf_fault_never_clean_end / log_fault_never_ok / btor2_fault_final (a failing source is never reported "
@@ -278,8 +282,14 @@ PROPS = {
              "items are a prefix and a returned header is the same header; cnf_fault_syntax_same / "
              "log_fault_syntax_same - a syntax error of the failing run is the very syntax error, same location and "
              "items, of the fault-free run; by a prefix-simulation of every parser function). AIGER (Props/C04Aiger.lean): aiger_fault_io, aag/aig_parse_fault, aig_gate_fault, "
-             "aag/aig_parse_not_ok_on_fault (with a failing source parse() never returns Ok); the item-prefix clause "
-             "for AIGER is checked by the engine's fault sweeps. "
+             "aag/aig_parse_not_ok_on_fault (with a failing source parse() never returns Ok); Props/C04AigerPrefix.lean: "
+             "aiger_fault_prefix / aiger_fault_syntax_same (streaming interface, ASCII and binary, stream and skip "
+             "modes: items handed out from b-then-failure are a prefix of the fault-free run over any b ++ more, the "
+             "run ends in io or a syntax error, and a syntax error is the very same error after the same items), "
+             "aiger_parse_fault_prefix / aiger_parse_fault_syntax_same / aag|aig_parse_fault_syntax_same for parse(), "
+             "aiger_item_fault_same per section reader (incl. binary next_and_gate); stated over Model/AigerRun.lean, "
+             "the model-level twin of the driver's streaming loop (the driver checks on every aiger case that both "
+             "give the same observation). "
              "Trusted: Lean kernel, harness.",
         assumptions=["input shorter than 2^63 bytes"]),
     "C05": dict(
